@@ -505,6 +505,13 @@ def c05(ctx):
         m = r.choice(mrts_grid(g)[:3])
         mt = r.choice(maxtau_grid(g))
         ri = r.random() < 0.5
+        cases += [(60, [False, m, TL, None]), (61, [False, m, ri, TL, None]), (62, [False, mt, m, TL, None]),
+                  (63, [False, mt, m, TL, None]), (72, [False, True, mt, m, TL, None])]
+        # the same list in a time unit of 2^-24 and a million units from 0: the profile sum must keep every breakpoint
+        for kq, cq in ((Fr(1, 2 ** 24), Fr(0)), (Fr(1), Fr(2 ** 20))):
+            TLq = [[[kq * x + cq for x in t[0]], kq * t[1] + cq, kq * t[2] + cq] for t in TL]
+            cases += [(60, [False, m * kq, TLq, None]), (62, [False, mt * kq, m * kq, TLq, None]),
+                      (64, [False, m * kq, None, TLq, None])]
         for iv in intervals_for(r, g, 1):
             cases += [(64, [False, m, iv, TL, None]), (65, [False, m, ri, iv, TL, None]),
                       (66, [False, mt, m, iv, TL, None])]
@@ -764,6 +771,13 @@ def c06(ctx):
                 y = [v[1:-1] for v in y]          # edge entries never count
             if not feq(x, y):
                 ctx.violate("result depends on list order (perm %r)" % perm, str(rid), a1, expected=x, got=y, rid=rid)
+        # a selection may name a train twice (positions, not a set): all-pairs aggregate over the selected positions
+        rx = [Nat(i) for i in r.sample(range(n), r.randint(2, n))]
+        rx = rx + [r.choice(rx)]
+        r.shuffle(rx)
+        cases += [(60, [False, m, TL, rx]), (61, [False, m, ri, TL, rx]), (62, [False, mt, m, TL, rx]),
+                  (64, [False, m, None, TL, rx]), (65, [False, m, ri, None, TL, rx]), (66, [False, mt, m, None, TL, rx]),
+                  (67, [False, m, None, TL, rx]), (68, [False, m, ri, None, TL, rx]), (69, [False, mt, m, None, TL, rx])]
         # the same aggregates over a sub-interval, SPIKE-Sync with max_tau as well
         iv = r.choice(intervals_for(r, gg)[1:])
         cases += [(64, [False, m, iv, TL, None]), (65, [False, m, ri, iv, TL, None]), (66, [False, mt, m, iv, TL, None]),
@@ -960,8 +974,8 @@ def c08(ctx):
             A, B = T(a), T(b)
             if nontrivial_pair(a, b):
                 ctx.nontrivial(("c08", core.enc([a, b]), m, mt, ri))
-            c = Fr(r.choice([-8, -3, 5, 8, 32]), r.choice([1, 4]))
-            k = Fr(r.choice([1, 2, 4, 8, 64]), r.choice([1, 1, 4, 16]))
+            c = Fr(r.choice([-8, -3, 5, 8, 32, 2 ** 15, -2 ** 20]), r.choice([1, 4]))
+            k = Fr(r.choice([1, 2, 4, 8, 64]), r.choice([1, 1, 4, 16, 2 ** 24, 2 ** 36]))
             if k == 1:
                 k = Fr(1, 8)
             base = {}
@@ -1066,8 +1080,8 @@ def c08(ctx):
         m = r.choice(mrts_grid(g)[:3])
         mt = r.choice(maxtau_grid(g))
         ri = r.random() < 0.5
-        c = Fr(r.choice([-8, -3, 5, 32]), r.choice([1, 4]))
-        k = Fr(r.choice([2, 4, 8, 64]), r.choice([1, 4, 16]))
+        c = Fr(r.choice([-8, -3, 5, 32, 2 ** 15, -2 ** 15, 2 ** 20]), r.choice([1, 4]))
+        k = Fr(r.choice([2, 4, 8, 64]), r.choice([1, 4, 16, 2 ** 24, 2 ** 36]))
         ctx.nontrivial(("c08l", core.enc(TL), m, mt, ri))
         xfs = (("shift %s" % c, lambda x: x + c, Fr(1), False), ("scale %s" % k, lambda x: x * k, k, False),
                ("mirror", lambda x: 1 - x, Fr(1), True))
@@ -1975,14 +1989,21 @@ def c13(ctx):
                   lambda: ps.spikes.reconcile_spike_trains(sts), lambda: ps.spikes.reconcile_spike_trains(one),
                   lambda: ps.isi_lengths.default_thresh(sts), lambda: sts[0].get_spikes_non_empty(),
                   lambda: ps.isi_distance_matrix(sts, MRTS='auto'), lambda: ps.spike_sync_matrix(sts, MRTS='auto')]
+        ids = [id(s.spikes) for s in sts]
         for k, c in enumerate(calls):
             core.call_impl(c)
             ctx.check()
-            for s, (sp, a, b) in zip(sts, snap):
+            for s, (sp, a, b), i0 in zip(sts, snap, ids):
                 if not (np.array_equal(s.spikes, sp) and s.t_start == a and s.t_end == b):
                     ctx.violate("call #%d modified its input trains" % k, "api", [ML, Nat(k)])
                     # restore so that later calls are judged on their own
                     s.spikes = sp.copy()
+                    break
+                if id(s.spikes) != i0 or not isinstance(s.spikes, np.ndarray) or s.spikes.dtype != np.float64:
+                    ctx.violate("call #%d replaced the spike array of an input train (now %s)" % (k, type(s.spikes).__name__),
+                                "api", [ML, Nat(k)])
+                    s.spikes = sp.copy()
+                    ids = [id(x.spikes) for x in sts]
                     break
 
 
@@ -2002,8 +2023,15 @@ def c14(ctx):
         # tuple): "interval=[t_start, t_end]" is an interval like any other (open: edge spikes do not count)
         L = [sorted(set(t + ([Z] if r.random() < 0.2 else []) + ([ONE] if r.random() < 0.2 else []))) for t in L]
         iv = r.choice(intervals_for(r, g, 1) + [[Z, ONE]])
+        # ... on recordings anywhere on the time axis (negative, ending at or below 0, far from 0, tiny unit)
+        kk, cc = r.choice([(Fr(1), Fr(0)), (Fr(1), Fr(0)), (Fr(1), Fr(-16)), (Fr(2), Fr(-2)), (Fr(1), Fr(-1)),
+                           (Fr(1), Fr(2 ** 20)), (Fr(1, 2 ** 24), Fr(0))])
+        L = [[kk * x + cc for x in t] for t in L]
+        m, mt = m * kk, mt * kk
+        if iv is not None:
+            iv = [kk * iv[0] + cc, kk * iv[1] + cc]
         ivf = None if iv is None else ((float(iv[0]), float(iv[1])) if r.random() < 0.5 else [float(iv[0]), float(iv[1])])
-        sts = ctx.impl.trains([T(t) for t in L])
+        sts = ctx.impl.trains([T(t, cc, kk + cc) for t in L])
         ctx.nontrivial(("c14", core.enc(L), m, mt, ri))
         k2 = dict(MRTS=float(m))
         kS = dict(MRTS=float(m), RI=ri)
@@ -2087,6 +2115,13 @@ def c14(ctx):
                   (66, [False, mt, m, None, TL, ix]), (67, [False, m, None, TL, ix]),
                   (72, [False, True, mt, m, TL, ix]), (73, [False, mt, m, TL, ix]),
                   (75, [False, False, mt, m, TL, ix])]
+        # a train may be selected more than once: the selection is a list of positions, not a set
+        rx = ix + [r.choice(ix)]
+        r.shuffle(rx)
+        cases += [(60, [False, m, TL, rx]), (61, [False, m, False, TL, rx]), (62, [False, mt, m, TL, rx]),
+                  (64, [False, m, None, TL, rx]), (65, [False, m, False, None, TL, rx]), (66, [False, mt, m, None, TL, rx]),
+                  (67, [False, m, None, TL, rx]), (69, [False, mt, m, None, TL, rx]), (72, [False, True, mt, m, TL, rx]),
+                  (73, [False, mt, m, TL, rx]), (75, [False, False, mt, m, TL, rx])]
     ctx.corr(cases, lambda rid, a: True)
 
 
@@ -2664,6 +2699,18 @@ def c18(ctx):
                         bad = "value arrays do not have the lengths of the selected trains"
                 if bad:
                     ctx.violate("with indices=%r: %s" % (sel, bad), name, [TL, str(mv), mt, ri], got=v)
+        # several calls in a row on the SAME objects, the later ones with reconciliation off (the objects are used as
+        # given) and MRTS='auto': still no exception, still finite
+        for name, f, kw, has_iv in scal:
+            for kw2 in (dict(Reconcile=False, MRTS='auto'), dict(Reconcile=False)):
+                form = (sts[0], sts[1]) if name == "spike_directionality" else (sts,)
+                kk = {k_: v_ for k_, v_ in kw.items() if k_ != "MRTS"}
+                kk.update(kw2)
+                v = core.call_impl(lambda: q(lambda: f(*form, **kk)))
+                ctx.check()
+                if isinstance(v, core.Err) or not core.all_finite(v):
+                    ctx.violate("a later call on the same train objects (%r) raises or is not finite" % (sorted(kw2),), name,
+                                [TL, mt, ri], got=v)
         if n == 2:
             A, B = TL
             cases += [(50, [False, m, A, B]), (51, [False, m, ri, A, B]), (52, [False, mt, m, A, B]),
